@@ -159,6 +159,19 @@ def _evaluate(r, e, ps):
     return [[k, v] for k, v in B.evaluate(A(r), A(e), **kw).items()]
 
 
+def _correlate_window(n, ri, ei, w):
+    """the four NumPy steps of p_score between the impulse trains and the sum, on given trains: this ties the
+    model's reading of `np.correlate(·, ·, "full")` and of the Python slice (negative start included) to NumPy"""
+    a = np.zeros(n)
+    a[np.asarray(ri, dtype=np.int64)] = 1.0
+    v = np.zeros(n)
+    v[np.asarray(ei, dtype=np.int64)] = 1.0
+    c = np.correlate(a, v, "full")
+    middle = c.shape[0] // 2
+    c = c[middle - w:middle + w + 1]
+    return [[int(x) for x in c], int(np.sum(c))]
+
+
 # how the real code is called for each model op (the same exact values, as floats)
 REAL = {
     "beat.trim_beats": lambda x, t: B.trim_beats(A(x), float(t)),
@@ -168,6 +181,8 @@ REAL = {
     "beat.cemgil": lambda r, e, s: list(B.cemgil(A(r), A(e), float(s))),
     "beat.goto_checked": lambda r, e, t, m, s: B.goto(A(r), A(e), float(t), float(m), float(s)),
     "beat.p_score": lambda r, e, t: B.p_score(A(r), A(e), float(t)),
+    "beat.p_score_literal": lambda r, e, t: B.p_score(A(r), A(e), float(t)),
+    "beat._correlate_window": lambda n, ri, ei, w: _correlate_window(n, ri, ei, w),
     "beat.continuity": lambda r, e, p, q: list(B.continuity(A(r), A(e), float(p), float(q))),
     "beat.information_gain_checked": lambda r, e, b: B.information_gain(A(r), A(e), b),
     "beat._get_entropy_checked": lambda r, e, b: B._get_entropy(A(r), A(e), b),
@@ -319,6 +334,41 @@ def suite_p_score(rng, tier, shard, nshards):
         yield case("beat.p_score", [ref, est, thr], tag, len(ref) >= 2 and len(est) >= 2)
 
 
+PS_WIDE = [Fr(1, 5), Fr(1, 2), Fr(1), Fr(33, 32), Fr(3, 2), Fr(2), Fr(65, 32), Fr(3), Fr(4), Fr(8), Fr(16), Fr(64),
+           Fr(0), Fr(-1, 4), Fr(-2)]
+
+
+def suite_p_score_literal(rng, tier, shard, nshards):
+    """the correlate-and-slice model (`pScoreLiteral`) against the real p_score; half of the cases use few beats
+    and large thresholds, so that the window reaches / exceeds the train length (negative slice start wraps)"""
+    for _ in range(nsize(tier, 100, 1500)):
+        if rng.random() < 0.5:
+            ref, est, tag = pair(rng)
+            thr = rng.choice([Fr(1, 5), Fr(1, 5), Fr(1, 4), Fr(1, 8), Fr(1, 2), Fr(0), Fr(1), Fr(2), Fr(4), Fr(-1, 4)])
+        else:
+            ref = regular(rng, nmin=2, nmax=4)
+            est, ek = estimate(rng, ref, rng.choice(["copy", "shift", "jitter", "offbeat", "double", "dropins",
+                                                     "other", "degenerate"]))
+            if rng.random() < 0.15:
+                ref, est = est, ref
+            thr = rng.choice(PS_WIDE)
+            tag = "short/%s" % ek
+        yield case("beat.p_score_literal", [ref, est, thr], tag, len(ref) >= 2 and len(est) >= 2)
+
+
+def suite_correlate_window(rng, tier, shard, nshards):
+    """np.correlate + Python slice on small random 0/1 trains, every window regime: negative, inside the train,
+    at and beyond the train length (wrap-around), far beyond (empty or clipped slice)"""
+    for _ in range(nsize(tier, 300, 6000)):
+        n = rng.choice([1, 1, 2, 3, 4, 5, 8, 13, 21, 40])
+        ri = sorted(set(rng.randrange(n) for _ in range(rng.randint(1, 6))))
+        ei = sorted(set(rng.randrange(n) for _ in range(rng.randint(1, 6))))
+        if rng.random() < 0.3:
+            ri = ri + [ri[0]]                      # a repeated index (two beats in one sample)
+        w = rng.choice([rng.randint(-3, 3 * n + 3), n - 1, n, n + 1, 2 * n - 1, 2 * n, 0])
+        yield case("beat._correlate_window", [n, ri, ei, w], "n=%d/%s" % (n, "in" if 0 <= w < n else "out"), True)
+
+
 def _is_dyadic(q):
     d = q.denominator
     return d & (d - 1) == 0
@@ -424,6 +474,8 @@ SUITES = {
     "beat.cemgil": suite_cemgil,
     "beat.goto": suite_goto,
     "beat.p_score": suite_p_score,
+    "beat.p_score_literal": suite_p_score_literal,
+    "beat.correlate_window": suite_correlate_window,
     "beat.continuity": suite_continuity,
     "beat.information_gain": suite_information_gain,
     "beat.evaluate": suite_evaluate,
@@ -541,6 +593,53 @@ def check_p_score(inp):
     return None
 
 
+def _mckinney(ref, est, thr):
+    """McKinney's P-score read directly off its definition, in exact rational arithmetic and without trains,
+    correlation or slices: the number of pairs (distinct quantised reference sample, distinct quantised estimated
+    sample) at most `win` samples apart, over max(|ref|, |est|); win = round(thr * median reference interval)"""
+    import math
+    ref, est, thr = [Fr(v) for v in ref], [Fr(v) for v in est], Fr(thr)
+    if len(ref) < 2 or len(est) < 2:
+        return Fr(0), None, None
+    off = min(ref + est)
+    ri = sorted(set(math.ceil((v - off) * 100) for v in ref))
+    ei = sorted(set(math.ceil((v - off) * 100) for v in est))
+    n = math.ceil(max(ref + est) - off) * 100 + 1
+    d = sorted(b - a for a, b in zip(ri, ri[1:]))
+    if not d:
+        return Fr(0), None, n
+    med = Fr(d[len(d) // 2]) if len(d) % 2 else Fr(d[len(d) // 2 - 1] + d[len(d) // 2], 2)
+    win = round(thr * med)                       # Fraction.__round__: ties to even, like np.round
+    cnt = sum(1 for i in ri for j in ei if abs(i - j) <= win)
+    return Fr(cnt, max(len(ref), len(est))), win, n
+
+
+def check_p_score_mckinney(inp):
+    """C04 on ONE input: the real p_score equals McKinney's definition (independent brute-force reading)"""
+    want, win, n = _mckinney(inp["ref"], inp["est"], inp["thr"])
+    try:
+        got = B.p_score(A(inp["ref"]), A(inp["est"]), float(Fr(inp["thr"])))
+    except Exception as e:  # noqa: BLE001
+        return "p_score raised %s on a valid input" % type(e).__name__
+    if not _close(got, float(want), 1e-9):
+        return "p_score = %r, McKinney's pair count / max(|ref|,|est|) = %s (window %s samples, train length %s)" % (
+            got, want, win, n)
+    return None
+
+
+def gen_p_score_mckinney(rng, tier, shard, nshards, boost):
+    for _ in range(nsize(tier, 60, 1500) * boost):
+        if rng.random() < 0.6:
+            ref, est, _ = pair(rng)
+            thr = rng.choice([Fr(1, 5), Fr(1, 5), Fr(1, 4), Fr(1, 8), Fr(1, 2), Fr(0), Fr(1), Fr(-1, 4)])
+        else:
+            ref = regular(rng, nmin=2, nmax=4)
+            est, _ = estimate(rng, ref, rng.choice(["copy", "shift", "jitter", "offbeat", "double", "dropins", "other"]))
+            thr = rng.choice(PS_WIDE)
+        # the threshold travels as an exact fraction ("1/5"): the definition is evaluated at 1/5, the code at float(1/5)
+        yield {"ref": [float(v) for v in ref], "est": [float(v) for v in est], "thr": str(thr)}
+
+
 def check_continuity(inp):
     ref, est, rs, es = _io(inp)
     c = [float(v) for v in B.continuity(ref, est)]
@@ -593,6 +692,7 @@ CHECKERS = {
     "beat.cemgil:best": check_cemgil_best,
     "beat.goto": check_goto,
     "beat.p_score": check_p_score,
+    "beat.p_score:mckinney": check_p_score_mckinney,
     "beat.continuity": check_continuity,
     "beat.information_gain": check_information_gain,
 }
@@ -602,6 +702,7 @@ ORACLES = {
     "beat.cemgil:best": gen_oracle(40, 1000),
     "beat.goto": gen_oracle(60, 1500),
     "beat.p_score": gen_oracle(20, 300),
+    "beat.p_score:mckinney": gen_p_score_mckinney,
     "beat.continuity": gen_oracle(60, 1500),
     "beat.information_gain": gen_oracle(60, 1500),
 }
